@@ -175,6 +175,9 @@ func fatJobs(c *core.Ctx, pl *fatPlan) []fatJob {
 			}
 			jobs = append(jobs, fatJob{cfg, fatFillCycles(n), "fill-cycles"})
 		}
+		if cfg.Preload <= 1<<20 {
+			jobs = append(jobs, fatJob{cfg, fatHeldScript(), "held-handles"})
+		}
 	}
 	return jobs
 }
